@@ -295,15 +295,15 @@ class AnyState(State):
     """
 
     def _on_event_defined(self, event: str, transition: Transition, states: List[State]):
-        # the placeholder is expanded onto each state only once, also when the event is
-        # defined again for a class that inherits the states
+        # the placeholder is expanded onto each state only once per event, also when the
+        # event is defined again for a class that inherits the states
         expanded = getattr(transition, "_expanded_states", None)
         if expanded is None:
             expanded = transition._expanded_states = []  # type: ignore[attr-defined]
         for state in states:
-            if state.final or any(state is s for s in expanded):
+            if state.final or any(state is s and event == e for e, s in expanded):
                 continue
-            expanded.append(state)
+            expanded.append((event, state))
             new_transition = transition._copy_with_args(source=state, event=event)
 
             state.transitions.add_transitions(new_transition)
